@@ -124,11 +124,12 @@ def vmdkOpenDescriptorP (desc : File) (names : List (String × File)) (parent : 
     Except Err (Vmdk.Vmdk × VmdkDesc.Desc) := do
   let some text := fileText desc | throw .other
   let d := VmdkDesc.parse text.toList
-  -- self.descriptor.attr["parentCID"]: KeyError when absent
-  let some pcid := VmdkDesc.dictGet d.attr "parentCID".toList | throw .index
+  -- self.descriptor.attr["parentCID"] / ["parentFileNameHint"]: KeyError when absent;
   -- a parent is required iff parentCID != ffffffff (open_parent raises when it cannot be opened)
-  let par ← (if pcid ≠ "ffffffff".toList then
-      (match parent with | some p => .ok (some p) | none => .error .other) else .ok none)
+  let par ← (match VmdkDesc.parentLink d with
+    | .error _ => .error Err.index
+    | .ok none => .ok none
+    | .ok (some _) => (match parent with | some p => .ok (some p) | none => .error .other))
   let mut mk : List (Nat → Vmdk.Disk) := []
   for e in d.extents do
     match VmdkDesc.wire e.type with
